@@ -160,6 +160,11 @@ template <class T> struct Judge
     template <class D>
     void pair (const char* fn, ExcKind kc, ExcKind ku, bool identical, const Quot* q, int nq, D&& describe, bool extra_legit_throw = false)
     {
+        if (c.verbose)
+        {
+            std::fprintf (stderr, "[replay] %s checked=%s unchecked=%s identical=%d %s\n", fn, exc_name (kc), exc_name (ku), (int) identical, describe ().c_str ());
+            for (int i = 0; i < nq; ++i) std::fprintf (stderr, "[replay]   guarded quotient %d: n=%.17g d=%.17g cond=%g |n/d|/max=%g\n", i, (double) q[i].n, (double) q[i].d, q[i].cond, q[i].d == 0 ? INFINITY : (double) (abs128 (q[i].n / q[i].d) / (f128) tmax<T> ()));
+        }
         if (ku != EX_NONE) c.fail (key (fn, tag, "unchecked_threw"), idx, describe);
         if (kc == EX_NONE)
         {
@@ -170,8 +175,11 @@ template <class T> struct Judge
         c.cls (std::string (fn) + ":threw");
         if (kc != EX_DOMAIN) c.fail (key (fn, tag, "wrong_exception_type"), idx, describe);
         if (extra_legit_throw) return;
-        Tight t = tightness<T> (q, nq);
-        if (t == T_OK) c.cls ("guard_fired_exact_quotient>=max/4_or_zero_denominator");
+        double loq = 0;
+        Tight  t   = tightness<T> (q, nq, &loq);
+        bool   wellc = true; // every guarded expression is evaluated accurately in T
+        for (int i = 0; i < nq; ++i) if (8.0 * teps<T> () * q[i].cond > 0.25) wellc = false;
+        if (t == T_OK) { c.cls ("guard_fired_exact_quotient>=max/4_or_zero_denominator"); if (wellc) c.worst ((std::string (fn) + "." + tag + ".(max/4)/exact_quotient_when_fired").c_str (), loq, idx); }
         else if (t == T_SKIP) c.cls ("tightness_skipped_illconditioned");
         else c.fail (key (fn, tag, "guard_fired_early"), idx, describe);
     }
